@@ -20,7 +20,7 @@ CHECKS = {
  "C08": dict(engine="sim", cat="exploration", design="3/C08",
    technique="runtime monitor: interleaved authorization+handler call log, replies and state vs reference server with pure, stateful and built-in read-only policies",
    text="Sessions are created with (authorization handler, role) through the hook; pure-function, alternate, allow-once, deny-once, allow-all, deny-all and the built-in read-only policy, 7 role strings. One ordered log shows the authorization call precedes any point access; denied requests must leave state untouched and be answered with exception 01.",
-   note="The role string is injected through the hook; the certificate -> role path is exercised over real TLS in C09. Authorization is not expected to be consulted for malformed requests."),
+   note="In the SIM part the role string is injected through the hook; the certificate -> role -> authorization path runs over real TLS in 24 cells (authority / self-signed x operator / viewer certificate x read / write single / write multiple x min 1.2 / 1.3) with a role-based policy, and in C09. Authorization is not expected to be consulted for malformed requests."),
  "C17": dict(engine="sim", cat="exploration", design="3/C17",
    technique="runtime monitor: output-stream equality (silence = equality) and per-unit call logs vs reference server over the whole unit-id space, RTU broadcast included",
    text="All 256 unit ids x eight kinds x valid / handler-failing / malformed against handler maps of 0-4 units, in sequences so that a silent frame is followed by an answered one; broadcast writes must reach every configured unit exactly once and never be answered.",
@@ -36,19 +36,19 @@ CHECKS = {
    note="RTU replies the reference RTU receiver cannot delimit or rejects only need to fail with a non-exception error. Byte-count-field lies with otherwise exact data are accepted either way."),
  "C05": dict(engine="sim", cat="exploration", design="3/C05",
    technique="runtime monitor: metamorphic partition test - same byte stream under 10 read partitions (with injected delays and command-induced cancellation of the pending read) must give identical records, and match the reference framing + server",
-   text="Server and client roles. Streams of valid/invalid/empty/maximum frames, optionally ended by a malformed MBAP header followed by a valid write that must never execute. Partitions include 1-byte reads and reads ending at / around the 260-byte buffer edge; the number of executions that reached the compaction path is measured.",
+   text="Server and client roles. Streams of valid/invalid/empty/maximum frames, optionally ended by a malformed MBAP header followed by a valid write that must never execute. Partitions include 1-byte reads and reads ending at / around the 260-byte buffer edge; the number of executions that reached the compaction path is measured. TLS leg: the same kind of stream sent to a real rodbus TLS server by an independent TLS peer as one record / 1-byte / 7-byte / header-split / 259+261-byte / random records (reply stream and handler write log equal to the reference in every run; session closed at the malformed header, the write behind it never executed), and a real rodbus TLS client whose replies arrive in 1 / 3 / 7-byte, header-split and random records.",
    note="The compaction counter comes from a harness model of the buffer and is coverage information only."),
  "C06": dict(engine="sim", cat="fault_enumeration", design="3/C06",
    technique="fault enumeration under a runtime monitor: all 1-bit, all 2-bit (short frames), burst <=16-bit and CRC-byte corruptions of base frames delivered to the production RTU parser; independent bitwise-CRC reference receiver decides acceptance; emission monitor re-parses every emitted frame",
-   text="Each corrupted frame gets its own session (after a sentinel) in server role (10 request frames) and client role (18 response / exception frames), delivered whole, byte-per-byte and randomly chunked. No handler call, reply or accepted response may result unless the independent receiver finds a CRC-valid frame. The enumerated classes are exhaustive per base frame as stated in the evidence. A used-link campaign repeats a sample of corruptions after 1-3 earlier exchanges on the same session (larger frames first), and a pty leg sends length-preserving corruptions to the real serial server task over a pseudo-terminal.",
+   text="Each corrupted frame gets its own session (after a sentinel) in server role (12 request frames, two of them addressed to units 248 and 255) and client role (22 response / exception frames, four of them from units 248 / 255), delivered whole, byte-per-byte and randomly chunked. No handler call, reply or accepted response may result unless the independent receiver finds a CRC-valid frame. The enumerated classes are exhaustive per base frame as stated in the evidence. A used-link campaign repeats a sample of corruptions after 1-3 earlier exchanges on the same session (larger frames first), and a pty leg sends length-preserving corruptions to the real serial server task over a pseudo-terminal.",
    note="The CRC reference is self-checked against published vectors at start-up. On a used link only the first corrupted frame after valid traffic is judged; what the receiver does with the bytes after a rejected frame is unspecified and not tested."),
  "C07": dict(engine="sim", cat="exploration", design="3/C07",
    technique="runtime monitoring under hostile input: panic hook + rustc overflow checks/debug assertions, transport poll counter (spin), virtual-time and wall-clock watchdogs (subprocess workers), follow-up session and follow-up request as liveness probes",
    text="Grammar-aware mutations of valid traffic and raw random bytes, server and client roles, MBAP and RTU, all 36 decode levels with a formatting subscriber, random partitions; after the hostile stream the session must end on EOF/shutdown/handle drop, a fresh session on the same handler map must answer, the client handle must still complete requests and honour shutdown; a flood of stale frames must not postpone a request's completion beyond its deadline (bounded progress). Thorough adds a libFuzzer+AddressSanitizer target over the same harness entry point (coverage-guided byte streams, both roles) and a Miri run of the session loop on a sample.",
-   note="A non-yielding loop is reported only after the case fails to finish alone twice with a 10x budget. Multi-session isolation on a real server is in C15."),
+   note="Panics that the runtime catches inside spawned tasks are reported through the panic hook; a sentinel completing with Shutdown although nobody shut the task down is a violation. A non-yielding loop is reported only after the case fails to finish alone twice with a 10x budget. Multi-session isolation on a real server is in C15."),
  "C10": dict(engine="sim", cat="exploration", design="3/C10",
    technique="runtime monitor: exactly-once completion log keyed by request id + sequential reference of the client semantics giving the allowed result classes, over random event scripts in virtual time",
-   text="Scripts of 5-40 events over submit (three API styles, several handles), reply variants, partial reply, garbage, read error, EOF, write error, enable, disable, set-decode, shutdown, clone/drop handle, task abort and time advances around the deadlines; every request must complete exactly once with a class the history allows (no-connection only while down, timeout only after the deadline, shutdown only when the task is gone or try_send failed), including sessions with a consecutive-timeout limit. A second leg runs the production TCP task on a multi-thread runtime against a flaky loopback server with eight concurrent submitters (all three API styles), a controller toggling enable/disable and a final shutdown or handle drop, checking the schedule-independent part: one completion per request, Ok only with that request's own payload, Shutdown only once the task is going away.",
+   text="Scripts of 5-40 events over submit (three API styles, several handles), reply variants, partial reply, garbage, read error, EOF, write error, enable, disable, set-decode, shutdown, clone/drop handle, task abort and time advances around the deadlines; every request must complete exactly once with a class the history allows (no-connection only while down, timeout only after the deadline, shutdown only when the task is gone or try_send failed), including sessions with a consecutive-timeout limit and connections that break in the middle of a reply (cut inside the header, right after it, inside the body). A serial leg (pty) checks what a request submitted while a lost port is being re-opened completes with. A back-pressure leg runs 2-41 concurrent submitters on queues of 1-4 slots against a peer that answers everything: every blocking sender (Channel, CallbackSession) must be served Ok with its own payload, only FfiChannel may refuse, transmitted frames == accepted requests. A net leg runs the production TCP task on a multi-thread runtime against a flaky loopback server with eight concurrent submitters (all three API styles), a controller toggling enable/disable and a final shutdown or handle drop, checking the schedule-independent part: one completion per request, Ok only with that request's own payload, Shutdown only once the task is going away.",
    note="The outer reconnect loop is composed from hooked primitives in the same order as the production task (harness code); the production task is exercised black-box in C13/C14."),
  "C11": dict(engine="sim", cat="exploration", design="3/C11",
    technique="runtime monitor: unique-payload history checker (every peer reply carries a unique serial) + write-log order / id-arithmetic / one-outstanding checks",
@@ -65,28 +65,28 @@ CHECKS = {
 
  "C09": dict(engine="net", cat="fault_enumeration", design="3/C09",
    technique="fault/configuration enumeration under a runtime monitor: every cell of the TLS grid is a real handshake between the rodbus endpoint and an independent TLS stack (CPython ssl/OpenSSL peer), judged by a truth table; handler and authorization logs must stay empty in refused cells",
-   text="The grid {min 1.2,1.3} x {authority,self-signed} x {authz,no authz} x {server,client role} x peer offers {1.2 only,1.3 only,both} x certificate {valid, wrong authority/other certificate, wrong name, expired, not yet valid, role-less, other role} is enumerated completely (198 applicable cells); the peer sends a Modbus write right after its own Finished and plaintext Modbus is sent to the TLS port. Negotiated version and the role delivered to the authorization handler are checked.",
-   note="Trusts CPython's ssl module / OpenSSL as the independent peer and the fixture PKI in fixtures/pki (minted by mint.sh). Validity is judged at today's clock only; certificates with two role extensions are not tested."),
+   text="The grid {min 1.2,1.3} x {authority,self-signed} x {authz,no authz} x {server,client role} x peer offers {1.2 only,1.3 only,both} x certificate {valid, wrong authority/other certificate, wrong name, expired, not yet valid, role-less, other role, two role extensions (different / equal roles)}, plus client cells with an IP-literal expected name against certificates carrying that IP / only a DNS name / another IP, is enumerated completely (252 applicable cells); the peer sends a Modbus write right after its own Finished and plaintext Modbus is sent to the TLS port. Negotiated version and the role delivered to the authorization handler are checked.",
+   note="Trusts CPython's ssl module / OpenSSL as the independent peer and the fixture PKI in fixtures/pki (minted by mint.sh). Validity is judged at today's clock only. Two-role certificates are minted by DER surgery (fixtures/pki/mint_extra.py); a role extension that is not a UTF8String is not tested."),
  "C13": dict(engine="net", cat="exploration", design="3/C13",
    technique="online trace automaton on the connection-state listener stream with the listener callback used as a lock-step gate; accept counter, request-result and JoinHandle monitors",
-   text="The real TCP client task runs against a harness-owned listener; at every state notification the task is parked while one user event (enable, disable, shutdown, drop handles, submit) and the environment for the next attempt (refused, accept+close, accept+garbage, accept+silent, served) are injected. Checked: legal transitions, expected successor when nothing is pending, Disabled after disable, no accept while Disabled, no-connection for requests submitted while down, Shutdown once and last, handles report shutdown, task terminates.",
-   note="Wall-clock only as watchdog. A request queued at the Connecting gate may legitimately be served when the connect completes in its first poll (measured and reported). A serial (pty) leg runs the same automaton on the serial client task: port open failures and re-opens, disable/enable, shutdown."),
+   text="The real TCP client task runs against a harness-owned listener; at every state notification the task is parked while one user event (enable, disable, shutdown, drop handles, submit) and the environment for the next attempt (refused, accept+close, accept+garbage, accept+silent, served) are injected. Checked: legal transitions, expected successor when nothing is pending, Disabled after disable, no accept while Disabled, no-connection for requests submitted while down, a request handed over at a wait-state notification has completed when Connecting is announced (logical order, no clock), Shutdown once and last, handles report shutdown, task terminates.",
+   note="Wall-clock only as watchdog. A request queued at the Connecting gate may legitimately be served when the connect completes in its first poll (measured and reported). Serial (pty) legs run the PortState automaton on the serial client task (port open failures, shutdown / handle drop) and a port behind a symlink that opens, is disabled (the port must really be released: observed at the pty master), re-enabled, disappears and comes back (requests during the wait fail with no-connection, re-open observed from outside)."),
  "C14": dict(engine="net", cat="exploration", design="3/C14",
    technique="model comparison of the public strategy object over enumerated call sequences (panic = violation) + runtime monitor with a logging wrapper strategy on the real TCP client task (call-log grammar, announced delay == returned value, measured wait >= delay)",
-   text="Strategy object: all (min,max) pairs of a lattice up to Duration::MAX, all sequences over {fail, disconnect, reset} up to length 7 (quick) / 9 (thorough) plus runs of 70/130 failures. Task level: outcome sequences of 2-10 over {refused, accepted then closed, accepted then garbage} with min 20 ms / max 150 ms, with enable/disable/decode-level commands issued during the waits (a command must not shorten or restart the wait); the same monitor on the serial client (open retry on a pty that disappears) and the RTU server task (port retry).",
+   text="Strategy object: all (min,max) pairs of a lattice up to Duration::MAX, all sequences over {fail, disconnect, reset} up to length 7 (quick) / 9 (thorough) plus runs of 70/130 failures. Task level: outcome sequences of 2-10 over {refused, accepted then closed, accepted then garbage} with min 20 ms / max 150 ms, with enable/disable/decode-level commands issued during the waits (a command must not shorten or restart the wait); the same monitor on the serial client (open retry on a pty that disappears) and the RTU server task (port retry); and, measured from outside at the pty master, the instant at which a lost port (symlink re-pointed to a second pty) is opened again by the serial client and by the RTU server: never earlier than the delay.",
    note="Pairs with min > max are excluded (statement is contradictory there). Only the lower bound of a wait is a verdict."),
  "C15": dict(engine="net", cat="exploration", design="3/C15",
    technique="black-box history checker: alive/closed vector of real sockets after every event compared with an ordered-list model of the session tracker",
-   text="Histories of 5-30 events over {connect, client close, request, malformed header, set decode level, shutdown, drop handle} with max_sessions 0..4 against the real TCP server task; sentinel requests with unique transaction ids decide alive, EOF/reset decides closed.",
-   note="A discrepancy is reported only if it reproduces with a 10x longer grace for the server to notice closed peers. Connections stuck inside a TLS handshake are out of scope (recorded in DESIGN.md)."),
+   text="Histories of 5-30 events over {connect, client close, request, malformed header, set decode level, shutdown, drop handle} with max_sessions 0..4 against the real TCP server task; sentinel requests with unique transaction ids decide alive, EOF/reset decides closed. TLS leg: histories over {valid TLS client connects, connections that never become sessions (plaintext, garbage, connect-and-close, ClientHello fragment), client leaves, probe all} against the real TLS server task with limits 1-3; session-holding peers are rodbus TLS clients with a state listener.",
+   note="A discrepancy is reported only if it reproduces with a 10x longer grace for the server to notice closed peers. Connections that stay inside a TLS handshake forever are out of scope; whether a connection that arrives at the limit and then fails its handshake evicts the oldest session is accepted either way (the model follows what is observed)."),
  "C16": dict(engine="net", cat="exploration", design="3/C16",
    technique="black-box monitor: connections from chosen loopback source addresses to real servers (TCP, TLS, TLS+authz; Rust API and C ABI) judged by an independent matcher; three-valued oracle over enumerated wildcard strings",
-   text="Filters: any, exact v4/v6, sets of 1-5 mixed addresses, wildcards with literal/'*' fields on a boundary lattice; sources 127.a.b.c and ::1. Served = sentinel reply / completed handshake and Modbus reply through an independent TLS peer; refused = EOF before any byte. Parser: every string over a 12-symbol alphabet up to length 5 (quick) / 7 (thorough) plus grammar-generated strings.",
+   text="Filters: any, exact v4/v6, sets of 1-5 mixed addresses, the unspecified / broadcast / IPv4-mapped addresses as ordinary filter values (fixed first cases of every campaign and constructor), wildcards with literal/'*' fields on a boundary lattice; sources 127.a.b.c and ::1. Served = sentinel reply / completed handshake and Modbus reply through an independent TLS peer; refused = EOF before any byte. Parser: every string over a 12-symbol alphabet up to length 5 (quick) / 7 (thorough) plus grammar-generated strings.",
    note="The C-ABI variants (rodbus_server_create_tcp/_tls/_tls_with_authz, rodbus_address_filter_*) run in the ffi engine as part of this check. '+1' and leading zeros in a field are don't-care."),
 
  "C18": dict(engine="ffi", cat="exploration", design="3/C18",
    technique="differential runtime monitor: the same scenario through the extern C surface and through the Rust API, outcomes mapped through an independent name table; callback-lifecycle counters (completion exactly once, on_destroy exactly once); AddressSanitizer / Miri legs in the thorough tier",
-   text="All eight client operations x outcomes (genuine, 9 standard + all 256 raw exception codes, bad response, bad framing, close, silence, no listener, queue full, handle destroyed, runtime destroyed) against a scripted loopback peer; request bytes vs the reference encoder; measured timeouts; a C write handler answering success / each standard exception / raw codes for all four write functions observed by a raw client; 36 decode levels through both APIs with the C logger installed; client and port state listeners; configuration pass-through (TLS minimum version and certificate mode cells against the independent TLS peer, retry strategy delays measured, serial flow control / stop bits read back from the pty).",
+   text="All eight client operations x outcomes (genuine, 9 standard + all 256 raw exception codes, bad response, bad framing, close, silence, no listener, queue full, handle destroyed, runtime destroyed) against a scripted loopback peer; request bytes vs the reference encoder; measured timeouts; a C write handler answering success / each standard exception / raw codes for all four write functions observed by a raw client; 36 decode levels through both APIs with the C logger installed; client and port state listeners; configuration pass-through (max_queued_requests; TLS client expected name / wildcard switch / minimum version / certificate mode against an independent TLS server and against the Rust constructor; TLS server minimum version and certificate mode; retry strategy delays measured; serial flow control / stop bits read back from the pty; max_sessions 2 / 256 / 258 through each of the three TCP/TLS server constructors); a C authorization handler with one callback per function and a per-function answer (four masks): which callback is consulted, its arguments and role, the client's result, the write-handler calls.",
    note="The harness is Rust linking the rodbus-ffi rlib and calling only generated extern \"C\" functions with extern \"C\" callbacks (no C compiler involved). Completion callbacks for calls rejected for a parameter error before queueing are don't-care; on_destroy is not. A pty forces 8 data bits / no parity and has no baud rate, so only flow control and stop bits of the serial settings are observable."),
  "C19": dict(engine="ffi", cat="exploration", design="3/C19",
    technique="model comparison (HashMap reference) of every rodbus_database_* return value and of raw-socket reads; torn-read detector under multi-thread stress with injected yields inside the transaction callback, overlap counter",
@@ -129,7 +129,7 @@ def main():
         },
         "engines": [
             {"name": "sim", "path": "harness/vsim", "serves_properties": ["C01","C02","C03","C04","C05","C06","C07","C08","C10","C11","C12","C17","C20"], "kind_free_text": "production session loops over a scripted in-memory transport, single thread, virtual time, reference-model oracles"},
-            {"name": "net", "path": "harness/vnet", "serves_properties": ["C09","C13","C14","C15","C16"], "kind_free_text": "black box over loopback TCP/TLS/pty with lock-step listeners and history checkers"},
+            {"name": "net", "path": "harness/vnet", "serves_properties": ["C05","C06","C08","C09","C10","C13","C14","C15","C16"], "kind_free_text": "black box over loopback TCP/TLS/pty with lock-step listeners and history checkers; also the TLS / pty / real-schedule legs of C05, C06, C08, C10 (merged into those checks by the sim engine)"},
             {"name": "ffi", "path": "harness/vffi", "serves_properties": ["C16","C18","C19"], "kind_free_text": "extern C surface of rodbus-ffi driven from Rust; also built under ASan / run under Miri"},
         ],
         "checks": checks,
